@@ -31,6 +31,38 @@ fn variant(e: &dyn std::fmt::Debug) -> String {
     out
 }
 
+/// one frame as "raw_digest/len:normalised_digest/len" (or a marker)
+fn frame_part(out: &[u8]) -> String {
+    let mut norm = out.to_vec();
+    let flagged = norm.len() > 4 && norm[4] & 4 != 0;
+    if cfg!(feature = "hash") {
+        if !flagged || norm.len() < 4 {
+            return "hash-build-without-checksum-flag".into();
+        }
+        norm[4] &= !4;
+        norm.truncate(norm.len() - 4);
+    } else if flagged {
+        return "nohash-build-with-checksum-flag".into();
+    }
+    format!("{:016x}/{}:{:016x}/{}", fnv(out), out.len(), fnv(&norm), norm.len())
+}
+
+/// a history of inputs through ONE FrameCompressor at level Fastest: one part per frame
+fn reuse_case(inputs: &[Vec<u8>], seq: &[u8]) -> String {
+    catch_unwind(AssertUnwindSafe(|| {
+        let mut c: ruzstd::encoding::FrameCompressor<&[u8], Vec<u8>, _> = ruzstd::encoding::FrameCompressor::new(CompressionLevel::Fastest);
+        let mut parts = vec![];
+        for i in seq {
+            c.set_source(inputs[*i as usize].as_slice());
+            c.set_drain(Vec::new());
+            c.compress();
+            parts.push(frame_part(&c.take_drain().unwrap()));
+        }
+        parts.join(" ")
+    }))
+    .unwrap_or_else(|_| "panic".into())
+}
+
 fn compress_case(data: &[u8]) -> String {
     let mut parts = vec![];
     for level in [CompressionLevel::Uncompressed, CompressionLevel::Fastest] {
@@ -285,6 +317,7 @@ fn main() {
     // shows up here)
     let mut dicts: Vec<Vec<u8>> = vec![];
     let mut frames: Vec<Vec<u8>> = vec![];
+    let mut inputs: Vec<Vec<u8>> = vec![];
     for (i, line) in text.lines().enumerate() {
         let (kind, hex) = line.split_once(' ').unwrap_or((line, ""));
         let data = unhex(hex);
@@ -300,6 +333,12 @@ fn main() {
                 frames.push(data);
                 println!("{i} F defined");
             }
+            // I = define an input, R = compress the inputs with the listed indices through one compressor
+            "I" => {
+                inputs.push(data);
+                println!("{i} I defined");
+            }
+            "R" => println!("{i} R {}", reuse_case(&inputs, &data)),
             "H" => {
                 let out = catch_unwind(AssertUnwindSafe(|| {
                     let mut d = FrameDecoder::new();
